@@ -364,6 +364,25 @@ example : httpLayer ⟨500, [("CIMError".toList, ['x']), ("PGErrorDetail".toList
     (httpErrorInfo ⟨500, [("cimerror".toList, ['x']), ("PGErrorDetail".toList, ['y'])]⟩).hasPGErrorDetail = true :=
   ⟨rfl, rfl⟩
 
+/-- **WBEMServerResponseTime**: `last_server_response_time` is set only by a request that got through the
+    HTTP layer, and only from a header value `float()` accepts — a non-numeric value is never handed on
+    (it used to reach the statistics as a string in a seeded change: TypeError in stop_timer) -/
+theorem C02_server_response_time_spec (C : EnvCodec) (h : HttpResp) (b : UInt64)
+    (hs : serverResponseTime C h = some b) :
+    httpLayer h = .ok () ∧ ∃ v, headerGet h.headers "WBEMServerResponseTime" = some v ∧ C.parseFloat (strip v) = some b := by
+  unfold serverResponseTime at hs
+  split at hs
+  · cases hs
+  · rename_i hok
+    split at hs
+    · cases hs
+    · rename_i v hv
+      exact ⟨hok, v, hv, hs⟩
+
+/-- non-vacuity -/
+example : serverResponseTime ⟨{ toyCodec with parseFloat := fun _ => some 7 }, fun _ => none⟩
+    ⟨200, [("wbemserverresponsetime".toList, "12".toList)]⟩ = some 7 := rfl
+
 /-! ### transport: exceptions of requests / urllib3 -/
 
 /-- the full list of the WBEMConnection docstring: the response classes plus ConnectionError and
